@@ -31,6 +31,11 @@ func c16rval(v starlark.Value) string {
 	case starlark.Int:
 		n, _ := v.Int64()
 		return fmt.Sprintf("(vI %d)", n)
+	case starlark.Float:
+		if t := 2 * float64(v); t == float64(int64(t)) && t >= 0 && t < 1<<52 && !(t == 0 && 1/t < 0) {
+			return fmt.Sprintf("(vF (fH %d))", int64(t)) // the non-negative multiples of one half; others are not generated
+		}
+		return "<?float>"
 	case starlark.String:
 		parts := make([]string, len(v))
 		for i := 0; i < len(v); i++ {
@@ -414,6 +419,34 @@ func TestVerifC16Reason(t *testing.T) {
 				}
 			}
 			emit(fmt.Sprintf("subset-%d", len(differing)), o, n, differing, true)
+		}
+	}
+	// a part whose numbers change TYPE but not value (i -> float(i): 1 == 1.0) does not differ: alone (the environments
+	// are equal), next to each other part that does change, and when the re-typed part also changes elsewhere (then it
+	// differs, and the diff shown for it holds an equal pair of two types next to a changed one)
+	for i, k := range functionEnvKeys {
+		for j := -1; j < nk; j++ {
+			mode = (i + j + 1) % 2
+			o, n := starlark.NewDict(nk), starlark.NewDict(nk)
+			differing := map[string]bool{}
+			for x, kx := range functionEnvKeys {
+				base := starlark.Tuple{starlark.MakeInt(x), starlark.String("v")}
+				o.SetKey(kx, base)
+				switch {
+				case x == i && j == i:
+					n.SetKey(kx, starlark.Tuple{starlark.Float(x), starlark.String("w")})
+					differing[string(kx)] = true
+				case x == i:
+					n.SetKey(kx, starlark.Tuple{starlark.Float(x), starlark.String("v")})
+				case x == j:
+					n.SetKey(kx, starlark.Tuple{starlark.MakeInt(x), starlark.String("w")})
+					differing[string(kx)] = true
+				default:
+					n.SetKey(kx, base)
+				}
+			}
+			_ = k
+			emit(fmt.Sprintf("retyped-%d", len(differing)), o, n, differing, true)
 		}
 	}
 	mode = 0
